@@ -2,9 +2,11 @@
 (* Exhaustive check of the sync round (C11, C17): 1..3 configured servers,   *)
 (* every subset banned, every outcome of up to 5 attempts, replies carrying  *)
 (* lists (new server, ban, un-ban attempt, changed ports) and migration      *)
-(* orders with valid / invalid outer and inner signatures, restarts.         *)
+(* orders with valid / invalid outer and inner signatures, restarts.  With   *)
+(* Conc = 2 two rounds overlap in every possible way (a round waiting for a  *)
+(* slow server while the report loop starts the next one).                   *)
 EXTENDS Client
-CONSTANTS NServers, MaxRounds
+CONSTANTS NServers, MaxRounds, Conc
 VARIABLE rounds
 mvars == <<cvars, svars, rounds>>
 
@@ -40,28 +42,32 @@ MCInit ==
   /\ cgca = "gca" /\ cid = 1 /\ mutex = "free" /\ rnd = Idle /\ rounds = 0
 
 Step(A) == A /\ UNCHANGED <<cvars, rounds>>
+Active == IF Conc = 1 THEN {"r1"} ELSE RoundIds
 MCNext ==
-  \/ (rounds < MaxRounds /\ rounds' = rounds + 1 /\ RoundBegin /\ UNCHANGED cvars)
-  \/ \E k \in Keys \cup {"s4", "n1", "n2"} :
-        Step(Pick(k)) /\ Assert(~csrv[k].banned, "NeverSelectBanned")
-  \/ Step(AttemptFailed)
-  \/ Step(GiveUp)
-  \/ \E r \in Replies :
-        /\ Step(ApplyReply(r))
-        \* C17: identity changes only on a doubly signed migration order for this device
+  \/ \E x \in Active : (rounds < MaxRounds /\ rounds' = rounds + 1 /\ RoundBegin(x) /\ UNCHANGED cvars)
+  \/ \E x \in Active : \E k \in Keys \cup {"s4", "n1", "n2"} :
+        Step(Pick(x, k)) /\ Assert(~csrv[k].banned, "NeverSelectBanned")
+  \/ \E x \in Active : Step(AttemptFailed(x))
+  \/ \E x \in Active : Step(GiveUp(x))
+  \/ \E x \in Active : \E r \in Replies :
+        /\ Step(ApplyReply(x, r))
+        \* C17: identity changes only on a doubly signed migration order for this device (signed by the
+        \* GCA this round trusted when it began; with one round at a time that is the current GCA)
         /\ Assert(cgca' # cgca =>
-                    r.mig.present /\ SValid(r.mig.sig, cgca) /\
+                    r.mig.present /\ SValid(r.mig.sig, rnd[x].gca) /\
                     \A i \in 1..Len(r.servers) : SValid(r.servers[i].sig, r.mig.newgca),
                   "MigrateOnlyIfDoublySigned")
+        /\ Assert(Conc = 1 => rnd[x].gca = cgca, "one round at a time trusts the current GCA")
         \* C17: a server enters the list only with the GCA's signature
         /\ Assert(\A k \in DOMAIN csrv' \ DOMAIN csrv :
                     \E i \in 1..Len(r.servers) :
-                      r.servers[i].key = k /\ SValid(r.servers[i].sig, IF r.mig.present THEN r.mig.newgca ELSE cgca),
+                      r.servers[i].key = k /\ SValid(r.servers[i].sig, IF r.mig.present THEN r.mig.newgca ELSE rnd[x].gca),
                   "ListOnlyBySignature")
-  \/ \E k \in Keys \cup {"zero", "s4", "n1", "n2"} : rnd.phase = "idle" /\ ClientReload(k) /\ UNCHANGED <<cvars, rounds>>
+  \/ \E k \in Keys \cup {"zero", "s4", "n1", "n2"} : AllIdle /\ ClientReload(k) /\ UNCHANGED <<cvars, rounds>>
 MCSpec == MCInit /\ [][MCNext]_mvars
 
 BannedMonotone == [][BannedMonotoneStep]_mvars
 EntryFrozenUnlessBan == [][EntryFrozenStep]_mvars
 DiskBannedMonotone == [][DiskBannedMonotoneStep]_mvars
+NeverSelectBanned == [][NeverSelectBannedStep]_mvars
 =============================================================================
